@@ -6,6 +6,8 @@ import (
 	"bytes"
 
 	"github.com/named-data/ndnd/fw/defn"
+	"github.com/named-data/ndnd/fw/dispatch"
+	"github.com/named-data/ndnd/fw/table"
 	enc "github.com/named-data/ndnd/std/encoding"
 )
 
@@ -44,5 +46,39 @@ func specPktName(pkt *defn.Pkt) enc.Name {
 // in the forwarder, present or added later, carries the obligation "not (non-local face and /localhost name)".
 //
 //@ func (github.com/named-data/ndnd/fw/dispatch.Face).SendPacket
-//@   requires out.Pkt != nil && out.Pkt.L3 != nil
+//@   requires out.Pkt != nil && out.Pkt.L3 != nil && (out.Pkt.L3.Interest == nil) != (out.Pkt.L3.Data == nil)
 //@   requires !(self.Scope() == defn.NonLocal && specIsLocalhost(specPktName(out.Pkt)))
+
+// Outgoing pipelines: the only callers of SendPacket besides the NextHopFaceId shortcut. Their contract is what the
+// strategies rely on; the scope rule itself is the precondition of SendPacket (discharged at the call sites inside).
+//
+//@ func (*Thread).processOutgoingData
+//@   requires packet != nil && packet.L3 != nil && packet.L3.Data != nil && packet.L3.Interest == nil
+//@   modifies t.NOutData, t.NSatisfiedInterests
+
+//@ func (*Thread).processOutgoingInterest
+//@   requires packet != nil && packet.L3 != nil && packet.L3.Interest != nil && packet.L3.Data == nil && pitEntry != nil
+//@   modifies t.NOutInterests, all(table.PitOutRecord), all(table.basePitEntry)
+//@   ensures result ==> !(dispatch.GetFace(nexthop).Scope() == defn.NonLocal && specIsLocalhost(packet.L3.Interest.NameV))
+
+var _ = dispatch.GetFace
+var _ table.PitEntry
+
+// Incoming pipelines. "Never accepted from a non-local face": a /localhost packet from a non-local face is dropped
+// before it is counted, looked up, inserted anywhere or forwarded (NInInterests / the PIT-CS are untouched: the
+// counter is the first thing an accepted Interest changes; for Data the drop precedes the CS insertion and the PIT lookup).
+//
+//@ func (*Thread).processIncomingInterest
+//@   requires packet != nil && packet.L3 != nil && packet.L3.Interest != nil && packet.L3.Data == nil
+//@   assume t.pitCS != nil && t.deadNonceList != nil && t.deadNonceList.list != nil && t.strategies != nil && table.FibStrategyTable != nil
+//@   assume forall(func(k uint64) bool { return t.strategies[k] != nil })
+//@   modifies all(table.nameTreePitEntry), all(table.pitCsTreeNode), all(table.PitCsTree), t.deadNonceList.expirationQueue.pq, t.NInInterests, *packet.L3.Interest.HopLimitV, packet.L3.Data, packet.L3.Interest, packet.Raw, packet.Name, all(table.DeadNonceList), t.deadNonceList.list[*], all(table.basePitEntry)
+//@   loop 2 invariant fresh(allowedNexthops) && len(allowedNexthops) <= rangeindex+1 && cap(allowedNexthops) == len(nexthops) && forallIn(0, len(nexthops), func(i int) bool { return nexthops[i] != nil })
+//@   ensures [reject-nonlocal-localhost] old(packet.IncomingFaceID != nil && dispatch.GetFace(*packet.IncomingFaceID) != nil && dispatch.GetFace(*packet.IncomingFaceID).Scope() == defn.NonLocal && specIsLocalhost(packet.L3.Interest.NameV)) ==> t.NInInterests == old(t.NInInterests)
+
+//@ func (*Thread).processIncomingData
+//@   requires packet != nil && packet.L3 != nil && packet.L3.Data != nil && packet.L3.Interest == nil && sameSlice(packet.Name, packet.L3.Data.NameV)
+//@   assume t.pitCS != nil && t.deadNonceList != nil && t.deadNonceList.list != nil && t.strategies != nil && table.FibStrategyTable != nil
+//@   assume forall(func(k uint64) bool { return t.strategies[k] != nil })
+//@   modifies all(table.nameTreePitEntry), all(table.pitCsTreeNode), all(table.PitCsTree), all(table.basePitEntry), all(table.baseCsEntry), all(table.PitOutRecord), all(table.PitInRecord), t.deadNonceList.expirationQueue.pq, t.deadNonceList.list[*], t.NInData, t.NOutData, t.NSatisfiedInterests
+//@   ensures [reject-nonlocal-localhost] old(packet.IncomingFaceID != nil && dispatch.GetFace(*packet.IncomingFaceID) != nil && dispatch.GetFace(*packet.IncomingFaceID).Scope() == defn.NonLocal && len(packet.Name) > 0 && specIsLocalhost(packet.L3.Data.NameV)) ==> t.NOutData == old(t.NOutData) && t.deadNonceList.list == old(t.deadNonceList.list)
